@@ -610,18 +610,15 @@ fn do_minimize(dfa: DFA) -> DFA {
         let all_states = dfa.get_all_states();
         let nonaccepting_states =
             [&all_states, &dfa.accepting_states, &dead_state_group].difference();
-        if nonaccepting_states.is_empty() {
-            // Nothing to minimize
-            return dfa;
-        }
-        let nonaccepting_states_intern_id = pool.intern(nonaccepting_states);
         let accepting_states_intern_id = pool.intern(dfa.accepting_states.clone());
         let dead_state_intern_id = pool.intern(dead_state_group);
-        HashSet::from_iter([
-            dead_state_intern_id,
-            accepting_states_intern_id,
-            nonaccepting_states_intern_id,
-        ])
+        let mut partitions = HashSet::from_iter([dead_state_intern_id, accepting_states_intern_id]);
+        // All states may be accepting (e.g. `cmd [a [c]] | [b [c]];`); an empty block must not
+        // enter the partition, but equivalent accepting states still need to be merged.
+        if !nonaccepting_states.is_empty() {
+            partitions.insert(pool.intern(nonaccepting_states));
+        }
+        partitions
     };
     let mut worklist = partitions.clone();
     let transitions_image = dfa.make_transitions_image();
